@@ -14,7 +14,9 @@ EXTENDS Naturals, Sequences, FiniteSets, TLC, Json, IOUtils
 CONSTANTS Export
 Protos == {"raw", "json", "pb", "thriftbin", "http"}
 Limits == {4096, 65536}
-Classes == {"random", "truncall", "prefixgarbage", "hugeannounce", "validthengarbage", "zeros"}
+\* "lowered": the frames of "hugeannounce" (and one announcing 1 MiB) arrive after the read limit was LOWERED at run time, on a
+\* peer whose sessions, pooled messages and handler contexts came into being under the default limit
+Classes == {"random", "truncall", "prefixgarbage", "hugeannounce", "validthengarbage", "zeros", "lowered"}
 LenVals == {"0", "1", "limit-1", "limit", "limit+1", "2^31-1", "2^32-1"}
 Cases == {[fam |-> "hostile", proto |-> p, limit |-> l, class |-> c, lenval |-> "-", variant |-> v, expect |-> "robust"] :
              p \in Protos, l \in Limits, c \in Classes, v \in 1..3}
